@@ -106,6 +106,11 @@ func (p *Pipe) writable() bool {
 	return p.rclosed || p.wclosed || p.Window == 0 || p.buffered < p.Window
 }
 
+// LimitWindow makes the pipe take only extra more bytes beyond what it holds now.
+//
+//go:norace
+func (p *Pipe) LimitWindow(extra int) { p.Window = p.buffered + extra }
+
 //go:norace
 func (p *Pipe) push(data []byte, at int64) {
 	if p.n == len(p.segs) {
@@ -176,6 +181,7 @@ type Conn struct {
 	Name   string
 	rd, wr *Pipe
 	rdl    int64 // read deadline (virtual ns), 0 = none
+	wdl    int64 // write deadline (virtual ns), 0 = none; applies to writes blocked on a full window
 	closed bool
 	// PeerAddr, when set, is what RemoteAddr reports (several connections to one
 	// listening address)
@@ -306,8 +312,14 @@ func (c *Conn) Write(b []byte) (int, error) {
 	for off < len(b) {
 		if p.Window > 0 && t != nil && !s.abort {
 			for !p.writable() {
+				if c.wdl != 0 && c.wdl <= s.Now {
+					c.Timeouts++
+					s.logEv(EvNetTimeout, c.wdl, p.BytesW)
+					return off, ErrTimeout
+				}
 				t.wk = wPipeWindow
 				t.wpipe = p
+				t.wtime = c.wdl
 				s.block(t)
 				if c.closed || p.wclosed {
 					// closed from another task while this Write was blocked on the window
@@ -514,24 +526,46 @@ func (c *Conn) RemoteAddr() net.Addr {
 }
 
 //go:norace
-func (c *Conn) SetDeadline(t time.Time) error { return c.SetReadDeadline(t) }
+func (c *Conn) SetDeadline(t time.Time) error {
+	c.SetReadDeadline(t)
+	return c.SetWriteDeadline(t)
+}
 
+func deadlineNS(t time.Time) int64 {
+	if t.IsZero() {
+		return 0
+	}
+	ns := int64(t.Sub(Epoch))
+	if ns <= 0 {
+		ns = 1
+	}
+	return ns
+}
+
+// SetReadDeadline also reaches a Read of this connection that is parked in
+// another task (like a real net.Conn: that is how a parked call is interrupted).
+//
 //go:norace
 func (c *Conn) SetReadDeadline(t time.Time) error {
-	if t.IsZero() {
-		c.rdl = 0
-	} else {
-		c.rdl = int64(t.Sub(Epoch))
-		if c.rdl == 0 {
-			c.rdl = 1
-		}
-	}
+	c.rdl = deadlineNS(t)
+	c.s.retime(wPipeRead, c.rd, c.rdl)
 	return nil
 }
 
-func (c *Conn) SetWriteDeadline(t time.Time) error { return nil }
+// SetWriteDeadline: a Write blocked on a full window returns ErrTimeout once
+// the deadline has passed, also when it is set from another task.
+//
+//go:norace
+func (c *Conn) SetWriteDeadline(t time.Time) error {
+	c.wdl = deadlineNS(t)
+	c.s.retime(wPipeWindow, c.wr, c.wdl)
+	return nil
+}
 
 // SetReadDeadlineNS sets the deadline in virtual nanoseconds (0 = none).
 //
 //go:norace
-func (c *Conn) SetReadDeadlineNS(ns int64) { c.rdl = ns }
+func (c *Conn) SetReadDeadlineNS(ns int64) {
+	c.rdl = ns
+	c.s.retime(wPipeRead, c.rd, ns)
+}
